@@ -244,6 +244,26 @@ func cmdDepth(args []string) {
 			}
 		}
 	}
+	// the same domain functions called from several packages in turn: each must
+	// denote ITS caller (a result remembered from an earlier caller would show here)
+	_, thisFile, _, _ := runtime.Caller(0)
+	harnessDir := filepath.Dir(filepath.Dir(filepath.Dir(thisFile)))
+	for round := 0; round < 2; round++ {
+		for pi, fns := range [][]func() string{
+			{dp1.PkgDomain, dp1.NewDomain, func() string { return dp1.HandledDomain(leafErr) }, dp1.RootPkgDomain, dp1.AtDepth0},
+			{dp2.PkgDomain, dp2.NewDomain, func() string { return dp2.HandledDomain(leafErr) }, dp2.RootPkgDomain, dp2.AtDepth0},
+			{dp3.PkgDomain, dp3.NewDomain, func() string { return dp3.HandledDomain(leafErr) }, dp3.RootPkgDomain, dp3.AtDepth0},
+		} {
+			want := "error domain: pkg " + filepath.Join(harnessDir, fmt.Sprintf("dp%d", pi+1))
+			for fi, f := range fns {
+				evals++
+				if got := f(); got != want {
+					fail(fmt.Sprintf("domain-from-dp%d-%d-round%d", pi+1, fi, round),
+						fmt.Sprintf("a domain function called from package dp%d denotes %q, expected that package (%q)", pi+1, got, want), "")
+				}
+			}
+		}
+	}
 	names := map[string]bool{}
 	for _, e := range entries {
 		names[e.name] = true
